@@ -142,7 +142,7 @@ class BaseCurve(Intface_BaseCurve):
             vectmul = heavy.MathOperations.knotvector_mul(vecta, vectb)
             matrix3d = heavy.MathOperations.mul_spline_curve(vecta, vectb)
             matrix2d = [
-                [pt0 @ pt1 for pt0 in self.ctrlpoints] for pt1 in other.ctrlpoints
+                [pt0 @ pt1 for pt1 in other.ctrlpoints] for pt0 in self.ctrlpoints
             ]
             matrix3d = np.array(matrix3d)
             matrix2d = np.array(matrix2d)
